@@ -32,6 +32,11 @@ def rule_shift(rep, tname, m):
     if X is None:
         rep.ob(R, key, False, "load copies an unbounded slice of the input", loc(fn, ld["node"]))
         return
+    if sh.get("conditional"):
+        rep.ob(R, key, False,
+               "the history shift only happens when `%s`: on the other path the position is still rebased and the fill offset still updated as if the buffer had been shifted, "
+               "so the next call reads frames from the wrong place and the next load overwrites unshifted frames" % sh["conditional"], where)
+        return
     immut = immutable_fields(facts, tname)
     sf = state_fields(facts, tname)
     shift_first = m["order"].index("shift") < m["order"].index("load")
